@@ -183,7 +183,8 @@ def check_config(st):
             return out + [{"clause": "scale_raises", "detail": "%s: %s" % (type(ex).__name__, str(ex)[:200]),
                            "gforms": "+".join(sorted(set(st["gform"])))}]
         out += scaled_ok(g0, geometry(w2), k, "scale x%g" % k)
-        out += clauses(w2, "scaled x%g" % k, False)
+        # a world whose mass comes from its layers keeps deriving it after scaling (the user never gave a mass)
+        out += clauses(w2, "scaled x%g" % k, not st["worldMassGiven"])
         if w.config != c0:
             out.append({"clause": "inputs_unmutated", "detail": "scale_from_world changed the parent's config"})
         if geometry(w) != g0:
@@ -221,6 +222,8 @@ def check_chain(chain, base_name):
     cfg_base = w.config["name"]
     g_first = geometry(w)
     known_before = copy.deepcopy(get_world_configs().get(base_name))
+    # whether the user gave a mass is read from the SHIPPED configuration, not from what a built world carries in .config
+    root_mass_from_layers = (known_before or {}).get("mass") is None
     for step, (kind, k, nm, exp_tokens, sc) in enumerate(chain):
         c0 = copy.deepcopy(w.config)
         g0 = geometry(w)
@@ -290,7 +293,7 @@ def check_chain(chain, base_name):
         if copy.deepcopy(get_world_configs().get(base_name)) != known_before:
             out.append({"clause": "inputs_unmutated", "detail": "%s changed the shipped configuration table entry %s" % (label, base_name)})
         out += scaled_ok(g_first, geometry(w2), sc[0] / sc[1], label + " total scale %d/%d" % tuple(sc))
-        out += clauses(w2, label, False)
+        out += clauses(w2, label, root_mass_from_layers)
         if out:
             break
         w = w2
@@ -308,12 +311,14 @@ def check_shipped(name):
         return [{"clause": "build_raises", "detail": "%s: %s: %s" % (name, type(ex).__name__, str(ex)[:200])}]
     if not hasattr(w, "layers"):
         return [{"skipped": "not layered"}]
-    out += clauses(w, name, "mass" not in w.config or w.config.get("mass") is None)
+    from TidalPy.structures.world_builder.config_handler import get_world_configs
+    shipped_mass_from_layers = (get_world_configs().get(name) or {}).get("mass") is None
+    out += clauses(w, name, shipped_mass_from_layers)
     for k in (0.5, 2.0):
         try:
             w2 = with_alarm(60, scale_from_world, w, radius_scale=k)
             out += scaled_ok(geometry(w), geometry(w2), k, "%s x%g" % (name, k))
-            out += clauses(w2, "%s x%g" % (name, k), False)
+            out += clauses(w2, "%s x%g" % (name, k), shipped_mass_from_layers)
         except Hang:
             out.append({"clause": "terminates", "detail": "scale_from_world(%s) hang" % name})
         except Exception as ex:
